@@ -11,8 +11,11 @@ from sparse import Image
 PROPERTY = "C04"
 RULE = ("seeded generator: fixed or dynamic disk, block size (4 KiB..2 MiB; 4 MiB thorough), virtual size not a multiple of "
         "the block size, per-block allocated/unallocated, physical order (identity/reversed/shuffled/holes), BAT and header "
-        "placement, legacy 511-byte footer, BATs larger than the 4096-entry cache; requests: block-edge±1, tail, full, "
-        "random, as one history. Non-trivial = model WF, (dynamic with both block states or permuted, or fixed), and a "
+        "placement, legacy 511-byte footer, BATs larger than the 4096-entry cache; guest content knob: ordinary pattern, or guest "
+        "offset 0 holding VHD structures of ANOTHER disk (a nested dynamic / differencing image: footer copy + dynamic header + BAT; "
+        "a fixed-disk footer of another size, 512 or 511 bytes), or a foreign footer in the last guest sector right before the real "
+        "footer (fixed disks); for dynamic disks the same structures at the start of block 0's data; requests: size, block-edge±1, "
+        "tail, full, random, as one history. Non-trivial = model WF, (dynamic with both block states or permuted, or fixed), and a "
         "request crossing a block boundary (dynamic) / longer than one buffer (fixed); distinct recipe hash.")
 ASSUMPTIONS = ["dissect.util AlignedStream as transcribed in Hv/Stream.lean", "struct.Struct('>I') = big-endian u32 (format string extracted)",
                "block sizes that are a multiple of 4096 (8 sectors); for 512..2048-byte blocks the references disagree (DESIGN §C04)"]
@@ -38,11 +41,55 @@ def dyn_header(table_offset, max_entries, block_size):
     return bytes(h)
 
 
+def gen_content(rng, outer_size, nested=0.5, tail=True):
+    """what the guest wrote at the start (and, for "tail", the end) of the disk. A disk may hold anything — in particular the raw
+    bytes of another VHD image (nested virtualisation, a .vhd restored with dd, a backup appliance's volume): then guest sector 0
+    is a footer copy with the `conectix` cookie, followed by that image's dynamic header and BAT. None of it describes THIS disk."""
+    if rng.random() >= nested:
+        return {"kind": "plain"}
+    kind = rng.choice(["nested-dynamic", "nested-dynamic", "nested-differencing", "nested-fixed", "nested-fixed"] + (["tail"] if tail else []))
+    isize = rng.choice([s for s in (512, 4096, 65536, 100 * 512, 3 << 20, 1 << 30, 127 << 30) if s != outer_size])
+    c = {"kind": kind, "isize": isize, "ilegacy": rng.random() < 0.3}
+    if kind in ("nested-dynamic", "nested-differencing"):
+        ibs = rng.choice([4096, 65536, 1 << 21])
+        n = min(max(1, (isize + ibs - 1) // ibs), rng.choice([1, 3, 8, 200]))
+        spb = ibs // 512
+        nxt = 4 + (n * 4 + 511) // 512
+        bat = []
+        for _ in range(n):
+            if rng.random() < 0.7:
+                bat.append(nxt)
+                nxt += spb + ((spb + 7) // 8 + 511) // 512
+            else:
+                bat.append(0xFFFFFFFF)
+        c.update({"ibs": ibs, "ibat": bat, "inent": (isize + ibs - 1) // ibs})
+    return c
+
+
+def content_prefix(c):
+    """bytes at guest offset 0 (not counting the ordinary pattern that follows)"""
+    k = (c or {}).get("kind", "plain")
+    if k in ("plain", "tail"):
+        return b""
+    if k == "nested-fixed":
+        return footer(c["isize"], 0xFFFFFFFFFFFFFFFF, 2, c["ilegacy"])
+    bat = b"".join(struct.pack(">I", e) for e in c["ibat"])
+    bat += b"\xff" * (-len(bat) % 512)
+    return footer(c["isize"], 512, 3 if k == "nested-dynamic" else 4, False) + dyn_header(1536, c["inent"], c["ibs"]) + bat
+
+
+def content_tail(c):
+    """bytes ending exactly at the last guest byte (a nested image that fills the disk ends with its own footer)"""
+    if (c or {}).get("kind") != "tail":
+        return b""
+    return footer(c["isize"], 0xFFFFFFFFFFFFFFFF, 2, c["ilegacy"])
+
+
 def gen_recipe(rng, tier, big=False, bs=None, nb=None):
     legacy = rng.random() < 0.15
-    if rng.random() < 0.2:
-        size = rng.choice([512, 4096, 12288, 100 * 512, 65536 + 512, 1 << 20])
-        return {"kind": "fixed", "size": size, "legacy": legacy, "seed": rng.randrange(256)}
+    if rng.random() < 0.25:
+        size = rng.choice([512, 4096, 12288, 100 * 512, 65536 + 512, 307200, 1 << 20])
+        return {"kind": "fixed", "size": size, "legacy": legacy, "seed": rng.randrange(256), "content": gen_content(rng, size)}
     fixed = bs is not None
     bs = bs or rng.choice([4096, 4096, 8192, 8192, 65536, 1 << 19] + ([1 << 21, 1 << 22] if tier == "thorough" else []))
     nb = nb or (rng.choice([1100, 2300, 4200]) if big else rng.choice([1, 2, 3, 3, 5, 8, 13, 30]))      # big: more BAT entries than any cache chunk
@@ -65,7 +112,7 @@ def gen_recipe(rng, tier, big=False, bs=None, nb=None):
     it = iter(phys)
     blocks = [(next(it) if s == "a" else None) for s in states]
     return {"kind": "dynamic", "size": size, "bs": bs, "blocks": blocks, "extra": extra, "legacy": legacy,
-            "bat_after": rng.random() < 0.25, "hdr_off": rng.choice([512, 512, 1536, 4096]), "seed": rng.randrange(256)}
+            "content": gen_content(rng, size, nested=0.25 if blocks[0] is not None else 0.0, tail=False), "bat_after": rng.random() < 0.25, "hdr_off": rng.choice([512, 512, 1536, 4096]), "seed": rng.randrange(256)}
 
 
 class Truth:
@@ -73,8 +120,14 @@ class Truth:
         self.r = r
         self.size = r["size"]
         im = Image()
+        pre, tail = content_prefix(r.get("content")), content_tail(r.get("content"))
         if r["kind"] == "fixed":
-            im.put_pat(0, r["size"], r["seed"])
+            pre = pre[:r["size"]]
+            if len(pre) + len(tail) > r["size"]:
+                tail = b""
+            im.put_hex(0, pre)
+            im.put_pat(len(pre), r["size"] - len(pre) - len(tail), r["seed"])
+            im.put_hex(r["size"] - len(tail), tail)
             ft = footer(r["size"], 0xFFFFFFFFFFFFFFFF, 2, r["legacy"])
             im.put_hex(r["size"], ft)
             im.finish(r["size"] + len(ft))
@@ -108,7 +161,9 @@ class Truth:
                 bat.append(o // 512)
                 self.loc.append(o + bm * 512)
                 im.put_fill(o, bm * 512, 0xFF)
-                im.put_pat(o + bm * 512, bs, (r["seed"] + 31 * p) & 0xFF)
+                head = pre[:bs] if len(self.loc) == 1 else b""          # block 0 holds guest offset 0
+                im.put_hex(o + bm * 512, head)
+                im.put_pat(o + bm * 512 + len(head), bs - len(head), (r["seed"] + 31 * p) & 0xFF)
         bat += [0xFFFFFFFF] * r["extra"]
         ft = footer(r["size"], hdr_off, 3, False)
         im.put_hex(0, ft)
@@ -138,7 +193,7 @@ class Truth:
 def gen_queries(rng, r, n):
     size = r["size"]
     bs = r.get("bs", 8192)
-    qs = []
+    qs = [["s", 0, 2], ["o", 0, rng.choice([512, 512, 4096, min(size, 65536)])]]         # VHD.size; the first guest sector(s)
     nblk = (size + bs - 1) // bs
     for _ in range(n):
         kind = rng.choice(["edge", "edge", "span", "tail", "rand", "full", "small"])
@@ -187,14 +242,15 @@ def build(case):
     t = Truth(case["recipe"])
     r = case["recipe"]
     truth = core.truth_ops(t.size, t.read, case["queries"])
+    guest = (r.get("content") or {}).get("kind", "plain")
     if r["kind"] == "fixed":
-        branches = ["fixed"] + (["legacy511"] if r["legacy"] else [])
+        branches = ["fixed"] + (["legacy511"] if r["legacy"] else []) + ([f"guest:{guest}"] if guest != "plain" else [])
         crosses = any(q[2] > case["align"] for q in case["queries"])
     else:
         alloc = [p for p in r["blocks"] if p is not None]
         branches = ["dynamic"] + sorted({"a" if p is not None else "u" for p in r["blocks"]}) + \
                    (["permuted"] if alloc != list(range(len(alloc))) else []) + (["legacy511"] if r["legacy"] else []) + \
-                   (["bat>4096"] if len(r["blocks"]) > 4096 else [])
+                   (["bat>4096"] if len(r["blocks"]) > 4096 else []) + ([f"guest:{guest}"] if guest != "plain" else [])
         bs = r["bs"]
         crosses = any(q[2] > 0 and q[1] < r["size"] and q[1] // bs != (min(q[1] + q[2], r["size"]) - 1) // bs for q in case["queries"])
     return Built({"a": t.im}, truth, {"branches": branches, "crosses": crosses, "in_scope": True})
